@@ -37,6 +37,7 @@ SUB = (-1.5, 0.5, 2.0)
 BKF = ('exp', 'sin', 'cos', 'tanh', 'sqrt', 'log')
 CB = (('+', 2, 'l'), ('-', 2, 'l'), ('-', 2, 'r'), ('*', 2, 'l'), ('*', 0.5, 'l'), ('%', 1, 'l'), ('%', 2, 'r'))
 POW = (2, 3, -1, 0.5)
+CEXP = (2, 0.5)         # constant ^ tree (a power whose exponent varies)
 ITEM_TIMEOUT = 60.0          # CPU seconds per (tree, environment): a legitimate one needs < 2 s
 
 ENVS = {
@@ -73,6 +74,7 @@ def enumerate_trees(env, max_nodes):
                 out.extend(('un', fn, e) for fn in dual.UNARY)
                 out.extend(('cb', op, c, side, e) for op, c, side in CB)
                 out.extend(('pow', c, e) for c in POW)
+                out.extend(('cexp', c, e) for c in CEXP)
         for e in V.get(k - 1, ()):
             s.extend(('red', r, e) for r in '+*')
             if e[0] != 'var':
@@ -80,6 +82,7 @@ def enumerate_trees(env, max_nodes):
             v.extend(('each', lam, e) for lam in sorted(dual.LAMBDAS))
         for i in range(1, k - 1):
             j = k - 1 - i
+            s.extend(('bpow', a, b) for a in S.get(i, ()) for b in S.get(j, ()))        # scalar ^ scalar
             for op in dual.BINOPS:
                 s.extend(('bin', op, a, b) for a in S.get(i, ()) for b in S.get(j, ()))
                 v.extend(('bin', op, a, b) for a in V.get(i, ()) for b in V.get(j, ()))
@@ -148,6 +151,10 @@ def kl(t):
         return '(%s^%s)' % (kl(t[2]), num(t[1]))
     if k == 'bin':
         return '(%s%s%s)' % (kl(t[2]), t[1], kl(t[3]))
+    if k == 'bpow':
+        return '(%s^%s)' % (kl(t[1]), kl(t[2]))
+    if k == 'cexp':
+        return '(%s^%s)' % (num(t[1]), kl(t[2]))
     if k == 'red':
         return '(%s/%s)' % (t[1], kl(t[2]))
     if k == 'each':
